@@ -502,6 +502,10 @@ def gen_removal(rng, p):
     spans = [e for e in n.iter(TX + "span")]
     links = [e for e in n.iter(TX + "a")]
     inl = [e for e in n.iter() if isinstance(e.tag, str) and e is not n and e.getparent() is not None and e.tag.rpartition("}")[2] in ("span", "a", "bookmark", "reference-mark", "s", "tab", "line-break", "note", "bookmark-start", "bookmark-end", "reference-mark-start")]
+    anns = [e for e in n.iter("{urn:oasis:names:tc:opendocument:xmlns:office:1.0}annotation")]
+    if anns and rng.random() < 0.4:
+        # an annotation (point or range) taken away again: Annotation.delete() or delete through the parent
+        return {"op": "delete_annotation", "idx": rng.randrange(10**6)}
     k = rng.choice(["remove_spans", "remove_links", "remove_span", "remove_link", "delete", "delete"])
     if k == "remove_span" and not spans or k == "remove_link" and not links or k == "delete" and not inl:
         k = "remove_spans"
@@ -550,6 +554,9 @@ def judge_removal(p, op):
         return out, sit, "stripped"
     # delete of an inline element or mark
     inl = [e for e in n.iter() if isinstance(e.tag, str) and e is not n and e.tag.rpartition("}")[2] in ("span", "a", "bookmark", "reference-mark", "s", "tab", "line-break", "note", "bookmark-start", "bookmark-end", "reference-mark-start")]
+    if o == "delete_annotation":
+        OFA = "{urn:oasis:names:tc:opendocument:xmlns:office:1.0}annotation"
+        inl = [e for e in n.iter(OFA) if not any(a.tag == OFA for a in e.iterancestors())]
     if not inl:
         return out, "delete", "nothing"
     t = inl[op["idx"] % len(inl)]
@@ -577,6 +584,18 @@ def judge_removal(p, op):
             prev.tail = (prev.tail or "") + tail
         else:
             par.text = (par.text or "") + tail
+    if local == "annotation" and op["idx"] % 2:
+        # Annotation.delete() takes the end mark of its range along, wherever it sits (inside a span, a link)
+        aname = t.get("{urn:oasis:names:tc:opendocument:xmlns:office:1.0}name")
+        for e in list(shadow.iter("{urn:oasis:names:tc:opendocument:xmlns:office:1.0}annotation-end")):
+            if aname and e.get("{urn:oasis:names:tc:opendocument:xmlns:office:1.0}name") == aname:
+                etail, epar, eprev = e.tail, e.getparent(), e.getprevious()
+                epar.remove(e)
+                if etail:
+                    if eprev is not None:
+                        eprev.tail = (eprev.tail or "") + etail
+                    else:
+                        epar.text = (epar.text or "") + etail
     expected = odftext.project(shadow)
     sit = "delete:" + local + (":with-tail" if t.tail else ":no-tail") + (":first-child" if t.getprevious() is None else ":has-previous")
     try:
